@@ -215,7 +215,7 @@ Print Assumptions ttl_kills_loops_bus_refuted.
        REP / RESPONDENT), split into header and body; nothing is invented or lost;
      - its header never exceeds the header capacity (and 4 + 4 * ttl bytes);
      - the raw REQ / SURVEYOR receive never drops silently: it delivers or disconnects;
-     - a wire that starts with ttl or more hop words (no end mark among them) is never admitted by
+     - a wire that starts with ttl or more hop words (no end mark among them) is never letin by
        REP / raw REP / RESPONDENT / raw RESPONDENT; one with 16 or more is a disconnect for raw REQ /
        raw SURVEYOR (the header is full);
      - nni_msg_header_append_u32's panic is unreachable on a message from a transport (empty header),
@@ -240,7 +240,7 @@ Theorem backtrace_total_bounded : forall F, famlaws F -> forall p ttl w,
 Proof.
   intros F L p ttl w. pose proof (fam_total_bounded F L p ttl w) as (A & B & C).
   split; [exact A|]. split; [exact B|]. split; [exact C|].
-  split; [intros ws rest; apply fam_overlong_never_admitted; assumption|].
+  split; [intros ws rest; apply fam_overlong_never_letin; assumption|].
   split; [intros ws rest; apply fam_back_overlong; assumption|]. apply (law_send_short F L).
 Qed.
 Print Assumptions backtrace_total_bounded.
@@ -256,7 +256,7 @@ Proof.
 Qed.
 Print Assumptions header_guard_unreachable_from_transports.
 
-(* well-formed backtraces: admitted iff the number of hop words is below the ttl, for every ttl 1..15 *)
+(* well-formed backtraces: letin iff the number of hop words is below the ttl, for every ttl 1..15 *)
 Theorem backtrace_wellformed_classified : forall F, famlaws F -> forall ws wend rest p ttl,
   Forall (nonend F) ws -> isend F wend -> ttl <= RT_TTL_MAX ->
   f_front_recv F p ttl (flat ws ++ wb wend ++ rest) =
@@ -272,8 +272,8 @@ Print Assumptions backtrace_wellformed_classified.
 
 (* ---------- pair1_hops_all_values ---------- *)
 (* every 32-bit hop value v, every ttl: > 0xff disconnects, > ttl is discarded with the connection
-   kept, otherwise admitted with header v; fewer than 4 bytes disconnects; a device forwards an
-   admitted message with v + 1 and its send never fails (which would stop the device); through a
+   kept, otherwise letin with header v; fewer than 4 bytes disconnects; a device forwards an
+   letin message with v + 1 and its send never fails (which would stop the device); through a
    chain of devices with ttls t_1..t_n a message that left its sender with hop h is discarded by the
    first device j with t_j < h + j - 1 and otherwise arrives with hop h + n *)
 Theorem pair1_hops_all_values :
